@@ -216,12 +216,12 @@ class G:
         if self.cfg.reductions:
             c.append((4, lambda: self.reduction(depth)))
             if self.cfg.ew_ops and (self.env["vectors"] or self.env["matrices"]):
-                c.append((1, lambda: self.elem_of_expr(depth)))
+                c.append((2, lambda: self.elem_of_expr(depth)))
         return self.pick(c)
 
     def elem_of_expr(self, depth):
         """an element picked out of a vector / matrix *expression*: (x + 1)[i], (x ** 2)[-1], sin(x)[i], (A * 2)[i, j]"""
-        if self.env["matrices"] and self.draw(st.integers(0, 2)) == 0:
+        if self.env["matrices"] and self.draw(st.integers(0, 1)) == 0:
             M = self.M(max(depth - 1, 1), classes=("expr",))
             if mclass(M) != "expr":
                 M = ["mneg", M]
@@ -336,7 +336,7 @@ class G:
             return ["slice", base, a, b, s]
         u, w = view(), view()
         Q = self.matrix_data(n, n)
-        return ["dot", u, ["matvec", Q, w, self.draw(st.sampled_from(["op", "fn"]))], self.draw(st.sampled_from(["dot", "dot", "matmul"]))]
+        return ["dot", u, ["matvec", Q, w, self.draw(st.sampled_from(["op", "fn", "op_f"]))], self.draw(st.sampled_from(["dot", "dot", "matmul"]))]
 
     def lincomb(self, d):
         V = self.Vop(d)
@@ -530,7 +530,8 @@ class G:
         m = vsize(V, self.env)
         n = size if size is not None else self.draw(st.integers(1, 4))
         A = self.matrix_data(n, m)
-        style = "fn" if vclass(V) != "var" else self.draw(st.sampled_from(["op", "fn"]))
+        style = self.draw(st.sampled_from(["fn", "fn", "fn_f"])) if vclass(V) != "var" else \
+            self.draw(st.sampled_from(["op", "fn", "op_f", "fn_f"]))
         return ["matvec", A, V, style]
 
     def mvarvec_cands(self, depth, size):
